@@ -90,6 +90,25 @@ def fresh_slotted_pair():
     return item, weighted
 
 
+def fresh_light_dict_subclass():
+    """A fresh importable pair Item_k(LightNodeMixin, slotted) / Noted_k(Item_k) where the subclass declares NO __slots__
+    (legal: its instances get a __dict__ next to the inherited slots)."""
+    import sys
+
+    k = _COUNT[0]
+    _COUNT[0] += 1
+
+    def init_item(self, name, data=None):
+        self.name = name
+        self.data = data
+
+    item = type("DItem_%d" % k, (LightNodeMixin,), {"__slots__": ("name", "data"), "__init__": init_item, "__module__": __name__})
+    noted = type("Noted_%d" % k, (item,), {"__module__": __name__})
+    setattr(sys.modules[__name__], item.__name__, item)
+    setattr(sys.modules[__name__], noted.__name__, noted)
+    return item, noted
+
+
 class PLabel(object):
     """A domain object used as a node's name / attribute value that knows 'its' node (back-reference into the tree)."""
 
